@@ -50,6 +50,14 @@ fn main() {
                         if let Err(e) = parse_line(&format!("m{{{}}} 1", l)) { println!("label {:?}: {}", l, e); ok = false; }
                     }
                     if !ok { v.push("name_and_labels_well_formed"); }
+                    // a key label overrides the global label of the same name
+                    for l in key.labels() {
+                        if let Some(gv) = globals.get(l.key()) {
+                            let n = ls.iter().filter(|x| x.starts_with(&format!("{}=", sanitize_label_key(l.key())))).count();
+                            let has_key_val = ls.iter().any(|x| *x == format!("{}=\"{}\"", sanitize_label_key(l.key()), sanitize_label_value(l.value())));
+                            if n != 1 || !has_key_val { println!("override of {:?} (global {:?}) failed: {:?}", l, gv, ls); v.push("key_label_overrides_global_label"); }
+                        }
+                    }
                 }
             }
         }
